@@ -17,6 +17,7 @@ import PyhamModel.Model.Spell
 import PyhamModel.Model.Agg
 import PyhamModel.Model.Session
 import PyhamModel.Model.Oma
+import PyhamModel.Model.Newick
 import PyhamModel.Witness
 open Pyham
 
@@ -200,9 +201,14 @@ def nonEmptyTaxa (H : Ham) : List Taxon := H.tree.allTaxa.filter fun t => H.geno
 def emitLoad (pfx : String) (H : Ham) (o : OutBuf) : OutBuf := Id.run do
   let mut o := o
   let singles := H.singletons.map Node.key
+  -- the listing of extant genes is a dictionary keyed by id: of several declarations of one id the LAST one is listed
+  -- (the same record `Ham.geneById` returns); the genome gene lists below keep every declaration
+  let mut rest := H.genes
   for g in H.genes do
-    o := o.put (pfx ++ "genes") (g.id ++ "|" ++ g.species ++ "|" ++ taxS g.tx ++ "|" ++
-      (if singles.contains (.g g.id) then "1" else "0") ++ "|" ++ kvS g.xrefs)
+    rest := rest.drop 1
+    if !(rest.any (·.id == g.id)) then
+      o := o.put (pfx ++ "genes") (g.id ++ "|" ++ g.species ++ "|" ++ taxS g.tx ++ "|" ++
+        (if singles.contains (.g g.id) then "1" else "0") ++ "|" ++ kvS g.xrefs)
   for (hid, n) in H.tops do
     o := o.put (pfx ++ "members") (osS hid ++ "=" ++ ",".intercalate (sortS n.leaves))
     o := o.put (pfx ++ "forest") (osS hid ++ "=" ++ forestS n)
@@ -278,6 +284,10 @@ def emitXref (H : Ham) (o : OutBuf) : OutBuf := Id.run do
     o := o.put "xref" (v ++ "=" ++ ",".intercalate ((H.genes.filter fun g => g.xrefs.any (·.2 == v)).flatMap fun g =>
       (g.xrefs.filter (·.2 == v)).map fun _ => g.id))
   return o
+
+/-- canonical rendering of a named tree: (name child child ...) -/
+partial def treeS : STree → String
+  | .node n ks => "(" ++ "\"" ++ n ++ "\"" ++ String.join (ks.map fun k => " " ++ treeS k) ++ ")"
 
 def emitTree (T : STree) (nm : Naming) (o : OutBuf) : OutBuf := Id.run do
   let mut o := o
@@ -388,6 +398,9 @@ def runQuery (T : STree) (nm : Naming) (inp : Input) (H? : Option Ham) (q : SExp
     match H.allLocs.find? (fun l => nodeKeyS l.node == k) with
     | some l => o.put "tphogsub" (k ++ "|" ++ " ".intercalate ((profileHog H l.node).map featS))
     | none => o.put "tphogsub" (k ++ "|nokey")
+  | .list [.atom "parse", .str txt], _ =>
+    -- the model's Newick READER on a text written by pyham (compared with ete3's reading of the same text)
+    o.put "txparse" (txt ++ " => " ++ (match parseNewick txt with | some t => treeS t | none => "none"))
   | .list [.atom "oma"], _ =>
     -- the same file loaded with species_resolve_mode="OMA"
     match loadOMA T nm inp with
